@@ -250,7 +250,7 @@ func (g *Gen) flowOpts(p *ps.Program) {
 	p.Wrap = g.chance(65)
 	p.Generic = g.chance(12)
 	p.TyAlias = g.chance(25)
-	p.Site = g.pickS("assign", "assign", "assign", "return", "if", "arg")
+	p.Site = g.pickS("assign", "assign", "assign", "return", "if", "arg", "var")
 	g.quirks(p)
 	p.ModSub = IsModSubset(p)
 }
@@ -931,7 +931,7 @@ func (g *Gen) ParallelProgram(pid int) *ps.Program {
 	p.Wrap = g.chance(65)
 	p.Generic = g.chance(20)
 	p.TyAlias = g.chance(25)
-	p.Site = g.pickS("assign", "assign", "assign", "return", "if", "arg")
+	p.Site = g.pickS("assign", "assign", "assign", "return", "if", "arg", "var")
 	g.quirks(p)
 	g.forms(p)
 	g.order(p)
